@@ -136,4 +136,96 @@ mod verif_indicators {
 			k += 1;
 		}
 	}
+
+	// ---- C11: "the default configuration of every indicator is valid and initialises" ----
+	// validate() on the 36 default configurations: concrete, loop-free comparisons, so a passing harness is a complete proof of this clause
+	#[kani::proof]
+	fn vk_default_configs_validate() {
+		use crate::indicators as ind;
+		assert!(<ind::Aroon>::default().validate());
+		assert!(<ind::AverageDirectionalIndex>::default().validate());
+		assert!(<ind::AwesomeOscillator>::default().validate());
+		assert!(<ind::BollingerBands>::default().validate());
+		assert!(<ind::ChaikinMoneyFlow>::default().validate());
+		assert!(<ind::ChaikinOscillator>::default().validate());
+		assert!(<ind::ChandeKrollStop>::default().validate());
+		assert!(<ind::ChandeMomentumOscillator>::default().validate());
+		assert!(<ind::CommodityChannelIndex>::default().validate());
+		assert!(<ind::CoppockCurve>::default().validate());
+		assert!(<ind::DetrendedPriceOscillator>::default().validate());
+		assert!(<ind::DonchianChannel>::default().validate());
+		assert!(<ind::EaseOfMovement>::default().validate());
+		assert!(<ind::EldersForceIndex>::default().validate());
+		assert!(<ind::Envelopes>::default().validate());
+		assert!(<ind::FisherTransform>::default().validate());
+		assert!(<ind::HullMovingAverage>::default().validate());
+		assert!(<ind::IchimokuCloud>::default().validate());
+		assert!(<ind::Kaufman>::default().validate());
+		assert!(<ind::KeltnerChannel>::default().validate());
+		assert!(<ind::KlingerVolumeOscillator>::default().validate());
+		assert!(<ind::KnowSureThing>::default().validate());
+		assert!(<ind::MACD>::default().validate());
+		assert!(<ind::MomentumIndex>::default().validate());
+		assert!(<ind::MoneyFlowIndex>::default().validate());
+		assert!(<ind::ParabolicSAR>::default().validate());
+		assert!(<ind::PivotReversalStrategy>::default().validate());
+		assert!(<ind::PriceChannelStrategy>::default().validate());
+		assert!(<ind::RelativeStrengthIndex>::default().validate());
+		assert!(<ind::RelativeVigorIndex>::default().validate());
+		assert!(<ind::SMIErgodicIndicator>::default().validate());
+		assert!(<ind::StochasticOscillator>::default().validate());
+		assert!(<ind::Trix>::default().validate());
+		assert!(<ind::TrendStrengthIndex>::default().validate());
+		assert!(<ind::TrueStrengthIndex>::default().validate());
+		assert!(<ind::WoodiesCCI>::default().validate());
+	}
+	// init() of the 36 default configurations on ONE concrete valid candle (bounded: the candle is fixed), in two halves
+	#[kani::proof]
+	#[kani::unwind(70)]
+	fn vk_default_configs_init_a() {
+		use crate::indicators as ind;
+		let c = Candle { open: 10.0, high: 12.0, low: 9.0, close: 11.0, volume: 100.0 };
+		assert!(<ind::Aroon>::default().init(&c).is_ok());
+		assert!(<ind::AverageDirectionalIndex>::default().init(&c).is_ok());
+		assert!(<ind::AwesomeOscillator>::default().init(&c).is_ok());
+		assert!(<ind::BollingerBands>::default().init(&c).is_ok());
+		assert!(<ind::ChaikinMoneyFlow>::default().init(&c).is_ok());
+		assert!(<ind::ChaikinOscillator>::default().init(&c).is_ok());
+		assert!(<ind::ChandeKrollStop>::default().init(&c).is_ok());
+		assert!(<ind::ChandeMomentumOscillator>::default().init(&c).is_ok());
+		assert!(<ind::CommodityChannelIndex>::default().init(&c).is_ok());
+		assert!(<ind::CoppockCurve>::default().init(&c).is_ok());
+		assert!(<ind::DetrendedPriceOscillator>::default().init(&c).is_ok());
+		assert!(<ind::DonchianChannel>::default().init(&c).is_ok());
+		assert!(<ind::EaseOfMovement>::default().init(&c).is_ok());
+		assert!(<ind::EldersForceIndex>::default().init(&c).is_ok());
+		assert!(<ind::Envelopes>::default().init(&c).is_ok());
+		assert!(<ind::FisherTransform>::default().init(&c).is_ok());
+		assert!(<ind::HullMovingAverage>::default().init(&c).is_ok());
+		assert!(<ind::IchimokuCloud>::default().init(&c).is_ok());
+	}
+	#[kani::proof]
+	#[kani::unwind(70)]
+	fn vk_default_configs_init_b() {
+		use crate::indicators as ind;
+		let c = Candle { open: 10.0, high: 12.0, low: 9.0, close: 11.0, volume: 100.0 };
+		assert!(<ind::Kaufman>::default().init(&c).is_ok());
+		assert!(<ind::KeltnerChannel>::default().init(&c).is_ok());
+		assert!(<ind::KlingerVolumeOscillator>::default().init(&c).is_ok());
+		assert!(<ind::KnowSureThing>::default().init(&c).is_ok());
+		assert!(<ind::MACD>::default().init(&c).is_ok());
+		assert!(<ind::MomentumIndex>::default().init(&c).is_ok());
+		assert!(<ind::MoneyFlowIndex>::default().init(&c).is_ok());
+		assert!(<ind::ParabolicSAR>::default().init(&c).is_ok());
+		assert!(<ind::PivotReversalStrategy>::default().init(&c).is_ok());
+		assert!(<ind::PriceChannelStrategy>::default().init(&c).is_ok());
+		assert!(<ind::RelativeStrengthIndex>::default().init(&c).is_ok());
+		assert!(<ind::RelativeVigorIndex>::default().init(&c).is_ok());
+		assert!(<ind::SMIErgodicIndicator>::default().init(&c).is_ok());
+		assert!(<ind::StochasticOscillator>::default().init(&c).is_ok());
+		assert!(<ind::Trix>::default().init(&c).is_ok());
+		assert!(<ind::TrendStrengthIndex>::default().init(&c).is_ok());
+		assert!(<ind::TrueStrengthIndex>::default().init(&c).is_ok());
+		assert!(<ind::WoodiesCCI>::default().init(&c).is_ok());
+	}
 }
